@@ -26,6 +26,10 @@ CORPUS = [  # minimised past failures (run first)
     dict(edges=[(0, 1), (1, 2), (2, 0)], weights=[1e-305, 1e20, 1e20], massive=[True] * 3, ext=[0, 1, 2], D=3, name="corpus:zero-probability-first-edge"),
     dict(edges=[(0, 1), (1, 2), (2, 3), (3, 0)], weights=[1e15, 1e-150, 1e-150, 1e15], massive=[True] * 4, ext=[0, 1, 2, 3], D=3,
          name="corpus:zero-probability-middle-edges"),
+    # J overflows to +inf: every probability is inf/inf = NaN or x/inf = 0 - still "for every u an edge is selected and no panic occurs"
+    dict(edges=[(0, 1), (1, 2), (2, 3), (3, 0)], weights=[1e-200, 1e-200, 1.0, 1.0], massive=[True] * 4, ext=[0, 1, 2, 3], D=3,
+         name="corpus:overflowing-J"),
+    dict(edges=[(0, 1), (1, 2), (2, 0)], weights=[1e-160, 1e-160, 1.6], massive=[True] * 3, ext=[0, 1, 2], D=3, name="corpus:overflowing-J-triangle"),
 ]
 
 
@@ -128,7 +132,9 @@ def run(ctx):
             ctx.count("table_with_non_finite_J(exact oracle not applicable)"); continue
         ex = exact_cums(r["table"]["entries"], n, g)
         uu = Fraction(u)
-        if all(uu == ck or abs(uu - ck) > Fraction(1, 10 ** 9) for _, ck in ex):
+        # (u EXACTLY on an exact boundary is a band case too: the code's running sum is a rounded one and may end one ulp below it;
+        # what happens there bit for bit is fixed by the correspondence with the model, which mirrors the code's additions)
+        if all(abs(uu - ck) > Fraction(1, 10 ** 9) for _, ck in ex):
             exp = next((e for e, ck in ex if ck >= uu), ex[-1][0])
             if a.get("edge") != exp or a.get("rest") != g ^ (1 << exp):
                 ctx.violation(f"edge {a.get('edge')} selected, the exact cumulative distribution gives edge {exp}", small, expected=exp, observed=a)
@@ -151,6 +157,64 @@ def run(ctx):
     ss = S.generate(ctx, 8 if ctx.quick else 60, 3, max_e=5, max_loops=3, routings_per_graph=1, kinds=("uniform", "edge1", "corner"),
                     special=("single_edge", "single_edge", "vacuum", "vacuum") + ("unit_j",) * (6 if ctx.quick else 30))
     S.run(ss)
+    # the LAST choice (two edges left) exactly on, and one float next to, the rounded cumulative boundary of that two-edge subgraph: decided by
+    # the same table-driven scan as every other choice (a closed form for two edges rounds differently)
+    extra = []
+    for s in list(ss):
+        a, c = s["impl"], s["case"]
+        n = len(c["edges"])
+        xpre = (a.get("log") or {}).get("momtrop_feynman_parameter_no_rescaling")
+        if a.get("status") != "ok" or n < 3 or not xpre or not SC.finite(xpre):
+            continue
+        xp = [b2f(b) for b in xpre]
+        if len(set(xp)) < n:
+            continue
+        order = sorted(range(n), key=lambda e: -xp[e])
+        g2 = (1 << order[-1]) | (1 << order[-2])
+        ent = s["table"]["entries"]
+        if any(not math.isfinite(b2f(en[2])) or not math.isfinite(b2f(en[3])) for en in ent):
+            continue
+        fc0 = float_cums(ent, n, g2)[0]
+        for u in (fc0, next_up(fc0), next_down(fc0)):
+            if 0 <= u < 1:
+                xs = list(s["xs"]); xs[2 * (n - 2)] = u
+                extra.append(dict(s, xs=xs, kind="last_choice_on_boundary", req=S.sample_request(c, s["routing"], s["table"], xs)))
+    S.run(extra)
+    # a WIDER scalar type (double-double) with the first edge-choice coordinate 1e-22 below / above an exact cumulative boundary: the scan
+    # compares running sums of J(g\e)/J(g)/omega(g\e) formed in the user's type from the TABLE's numbers, so exact rational arithmetic on the
+    # table decides which edge goes first (a normaliser recomputed in the user's type moves every boundary by ~1e-16)
+    dreqs, dinfo = [], []
+    for s in [s for s in ss if s["impl"].get("status") == "ok" and len(s["case"]["edges"]) >= 2][: (12 if ctx.quick else 80)]:
+        c = s["case"]; n = len(c["edges"]); ent = s["table"]["entries"]
+        if any(not math.isfinite(b2f(en[2])) or not math.isfinite(b2f(en[3])) or b2f(en[2]) == 0 for en in ent):
+            continue
+        ex = exact_cums(ent, n, (1 << n) - 1)
+        kk = rng.randrange(len(ex) - 1)
+        ck = ex[kk][1]
+        if not (Fraction(1, 1000) < ck < Fraction(999, 1000)):
+            continue
+        hi = float(ck); lo = float(ck - Fraction(hi))
+        for sign, exp_edge in ((-1, ex[kk][0]), (+1, ex[kk + 1][0])):
+            xs = list(s["xs"]); xs[0] = hi
+            xlo = [0.0] * len(xs); xlo[0] = lo + sign * 1e-22 * hi
+            rq = dict(S.sample_request(c, s["routing"], s["table"], xs, debug=False, meta=False), op="sample_dd", x_lo=[f2b(v) for v in xlo])
+            rq.pop("api_graph", None)
+            dreqs.append(rq); dinfo.append((s, exp_edge, sign, hi, xlo[0]))
+    for rq, d, (s, exp_edge, sign, hi, lo) in zip(dreqs, run_harness(dreqs), dinfo):
+        ctx.case(["dd_boundary", rq["x"][0], rq["x_lo"][0], s["case"]["edges"]], nontrivial=True); ctx.count("dd_boundary_probe")
+        small = dict(S.small_req(s), x0=[hi, lo], scalar="double-double")
+        if d.get("status") == "panic":
+            ctx.violation("sample panicked with a double-double point on an edge-choice boundary", small, observed=d.get("msg")); continue
+        if "x" not in d or not SC.finite(d["x"]):
+            continue
+        xd = [Fraction(b2f(p[0])) + Fraction(b2f(p[1])) for p in d["x"]]
+        first = max(range(len(xd)), key=lambda e: xd[e])
+        if sorted(xd)[-1] == sorted(xd)[-2]:
+            continue
+        if first != exp_edge:
+            ctx.violation(f"double-double coordinate {hi!r} + {lo!r} ({'below' if sign < 0 else 'above'} the exact boundary by 1e-22): edge {first} removed first, the running sums "
+                          f"of the table's J(g\\e)/J(g)/omega(g\\e) (exact arithmetic) give edge {exp_edge}", small, expected=exp_edge, observed=first)
+    ss += extra
     SC.corr_perm(ctx, ss)
     SC.generic_scalar_guard(ctx, ss[:: 2], k=8)
     for s in ss:
@@ -175,7 +239,7 @@ def run(ctx):
         for k in range(n - 1):
             uu = Fraction(s["xs"][2 * k])
             ex = exact_cums(ent, n, g)
-            if any(uu != ck and abs(uu - ck) <= Fraction(1, 10 ** 9) for _, ck in ex):
+            if any(abs(uu - ck) <= Fraction(1, 10 ** 9) for _, ck in ex):
                 clear = False; break
             e = next((e for e, ck in ex if ck >= uu), ex[-1][0])
             expected.append(e); g ^= 1 << e
